@@ -99,7 +99,11 @@ pub fn default_solutions(r: &mut Rng) -> (Vec<Solution>, usize) {
         pred[31] = r.below(256) as u8;
         let slots = r.below(4);
         let predicate_data = (0..slots)
-            .map(|s| (0..[0usize, 1, 3, 8][r.below(4)]).map(|j| 100 * (i as i64 + 1) + 10 * s as i64 + j as i64).collect())
+            .map(|s| {
+                // mostly short slots, now and then a long one (up to the validator's limit of 10000 words)
+                let len = if !tiny() && r.chance(0.03) { *r.pick(&[100usize, 1000, 4000, 10_000]) } else { [0usize, 1, 3, 8][r.below(4)] };
+                (0..len).map(|j| 100 * (i as i64 + 1) + 10 * s as i64 + j as i64).collect()
+            })
             .collect();
         sols.push(Solution {
             predicate_to_solve: PredicateAddress {
@@ -220,9 +224,22 @@ fn push(w: Word) -> Op {
     PUSH(w)
 }
 
+/// Mid-range sizes: around powers of two and other places where a chunked / batched fast path could switch.
+pub const MID: &[Word] = &[15, 16, 17, 31, 32, 33, 63, 64, 65, 100, 127, 128, 129, 255, 256, 257, 511, 512, 513, 1000, 1023, 1024, 1025, 2047, 2048, 2049, 4000];
+
 impl<'a> Gen<'a> {
     fn emit(&mut self, op: Op) {
         self.ops.push(op);
+    }
+    /// A size / count / length: mostly small (`0..small`), now and then mid-range (at most `cap`).
+    fn size(&mut self, small: Word, cap: Word) -> Word {
+        if !tiny() && self.r.chance(0.07) {
+            let c: Vec<Word> = MID.iter().copied().filter(|m| *m <= cap).collect();
+            if !c.is_empty() {
+                return *self.r.pick(&c);
+            }
+        }
+        self.r.range(0, small.max(1))
     }
     fn pushw(&mut self, w: Word) {
         let w = if self.r.chance(self.p_mut * 0.3) { *self.r.pick(ALPHA) } else { w };
@@ -334,14 +351,16 @@ impl<'a> Gen<'a> {
                 self.emit(SWAP);
             }
             2 => {
-                self.ensure(1);
-                let i = self.r.range(0, self.h.max(1));
+                let deep = self.size(1, 2100);
+                self.ensure(1 + deep.min(4000 - self.h.min(4000)).max(0));
+                let i = if deep > 1 { deep.min(self.h - 1) } else { self.r.range(0, self.h.max(1)) };
                 self.pushw(i);
                 self.emit(DUPF);
             }
             3 => {
-                self.ensure(2);
-                let i = self.r.range(0, self.h.max(1));
+                let deep = self.size(1, 2100);
+                self.ensure(2 + deep.min(4000 - self.h.min(4000)).max(0));
+                let i = if deep > 1 { deep.min(self.h - 1) } else { self.r.range(0, self.h.max(1)) };
                 self.pushw(i);
                 self.emit(SWAPI);
                 self.h -= 1;
@@ -356,7 +375,7 @@ impl<'a> Gen<'a> {
                 self.h -= 2;
             }
             5 => {
-                let len = self.r.range(0, 5);
+                let len = self.size(5, (4000 - self.h.min(4000)) / 2);
                 for _ in 0..2 * len {
                     let w = small(self.r);
                     self.pushw(w);
@@ -368,7 +387,7 @@ impl<'a> Gen<'a> {
                 self.h -= 2 + len;
             }
             6 => {
-                let n = self.r.range(0, 6);
+                let n = self.size(6, 4000 - self.h.min(4000));
                 self.pushw(n);
                 self.emit(RES);
                 self.h += n;
@@ -389,7 +408,7 @@ impl<'a> Gen<'a> {
                 self.h -= 2;
             }
             9 => {
-                let n = self.r.range(0, (self.h + 1).min(4));
+                let n = if self.h > 40 && self.r.chance(0.3) { self.r.range(0, self.h + 1) } else { self.r.range(0, (self.h + 1).min(4)) };
                 self.pushw(n);
                 self.emit(DROP);
                 self.h -= 1 + n;
@@ -413,7 +432,7 @@ impl<'a> Gen<'a> {
 
     fn memory_op(&mut self) {
         if self.ml <= 0 || self.r.chance(0.25) {
-            let n = if self.r.chance(0.9) { self.r.range(0, 9) } else { self.r.range(0, 3000) };
+            let n = if self.r.chance(0.9) { self.size(9, 10240 - self.ml.min(10240)) } else { self.r.range(0, 3000) };
             self.alloc(n);
             if self.r.chance(0.5) {
                 self.emit(POP);
@@ -438,7 +457,7 @@ impl<'a> Gen<'a> {
             }
             2 => {
                 let i = self.r.range(0, ml);
-                let n = self.r.range(0, (ml - i + 1).min(6));
+                let n = self.size((ml - i + 1).min(6), (ml - i).min(4000 - self.h.min(4000)));
                 self.pushw(i);
                 self.pushw(n);
                 self.emit(LODR);
@@ -446,7 +465,7 @@ impl<'a> Gen<'a> {
             }
             3 => {
                 let i = self.r.range(0, ml);
-                let n = self.r.range(0, (ml - i + 1).min(6));
+                let n = self.size((ml - i + 1).min(6), (ml - i).min(4000 - self.h.min(4000)));
                 for _ in 0..n {
                     let w = word(self.r);
                     self.pushw(w);
@@ -484,7 +503,7 @@ impl<'a> Gen<'a> {
     }
 
     fn eq_range(&mut self) {
-        let len = self.r.range(0, 5);
+        let len = self.size(5, (4000 - self.h.min(4000)) / 2);
         let a: Vec<Word> = (0..len).map(|_| small(self.r)).collect();
         let mut b = a.clone();
         if len > 0 && self.r.chance(0.4) {
@@ -716,7 +735,7 @@ impl<'a> Gen<'a> {
                 let s = if data.is_empty() { 0 } else { self.r.below(data.len()) };
                 let len = data.get(s).map(|v| v.len()).unwrap_or(0) as i64;
                 let i = self.r.range(0, len + 1);
-                let n = self.r.range(0, len - i + 2);
+                let n = self.r.range(0, (len - i + 2).min(4000 - self.h.min(4000)).max(1));
                 self.pushw(s as i64);
                 self.pushw(i);
                 self.pushw(n);
@@ -741,8 +760,8 @@ impl<'a> Gen<'a> {
 
     fn state_read(&mut self) {
         // make room: alloc `need` words, remember the address (old length)
-        let klen = *self.r.pick(&[0i64, 1, 1, 1, 2, 2, 3]);
-        let n = *self.r.pick(&[0i64, 1, 1, 2, 3, 5]);
+        let klen = if self.r.chance(0.03) { self.size(3, 1000) } else { *self.r.pick(&[0i64, 1, 1, 1, 2, 2, 3]) };
+        let n = if self.r.chance(0.05) { self.size(5, 1200) } else { *self.r.pick(&[0i64, 1, 1, 2, 3, 5]) };
         let need = n * 2 + n * 3 + self.r.range(0, 3);
         let addr = self.ml;
         self.alloc(need);
@@ -788,7 +807,7 @@ impl<'a> Gen<'a> {
     fn crypto(&mut self) {
         match self.r.below(4) {
             0 | 1 => {
-                let len = self.r.range(0, 40);
+                let len = if self.r.chance(0.1) { 8 * self.size(5, 1000) + self.r.range(0, 8) } else { self.r.range(0, 40) };
                 let words = (len + 7) / 8;
                 for _ in 0..words {
                     let w = self.r.word();
